@@ -48,6 +48,7 @@ def cases(tier, seed):
         add('$replace(s, %s, %s)' % (rx, repr(t).replace("'", '"')), d, ('replace',))
         add('$replace(s, %s, %s, %s)' % (rx, repr(t).replace("'", '"'), lim), d, ('replace',))
         add('$replace(s, %s, function($m){"<" & $m.match & ":" & $m.index & ":" & $count($m.groups) & ">"})' % rx, d, ('replace-fn',))
+        add('$replace(s, %s, function($m){%s})' % (rx, rng.choice(['"$1"', '"$0"', '"$$"', '"$" & $m.match', '"$1" & $m.match & "$2"', '"[$0|$1]"', '"$" & $string($m.index)', '"a$9b"', '"$$1"', '$m.match & "$"'])), d, ('replace-fn-dollar',))
         add('%s(s)' % rx, d, ('apply',))
         add('(%s)(s).next().next()' % rx, d, ('next',))
         add('( $m := %s(s); [$m.match, $m.start, $m.end, $m.groups, $m.next().match] )' % rx, d, ('next',))
